@@ -25,14 +25,18 @@ CONSTANTS
     MsgTypes,    \* message types the peer / the application may use
     MaxPeer,     \* the peer writes any sequence of at most MaxPeer messages
     MaxApp,      \* the application queues any sequence of at most MaxApp messages
+    PeerMode,    \* "adversarial": the peer writes an arbitrary fixed stream; "conforming": the peer is the
+                 \* protocol's reference automaton: it reads what we write and answers when it has agency
     Variant      \* "asis" | "noRecvToken": recvLoop without the wait for the receive token (a defective
                  \* design kept as a self-test: TLC must reject it)
 
 BadType == 99    \* undecodable bytes / unknown message type from the peer
 
 VARIABLES
-    peerScript, appScript,   \* fixed at Init
-    ppos, apos,              \* next message of each script
+    inbound,                 \* the peer's messages not yet read (adversarial: fixed at Init; conforming: grows)
+    appScript, apos,         \* the application's messages (fixed at Init) and the next one to queue
+    batch, outWire,          \* messages of the batch being collected / messages written to the wire, not yet read by the peer
+    pstate, pchunks,         \* conforming peer: its protocol state and how many Chunks it has streamed
     cstate,                  \* currentState
     sTok, rTok,              \* sendReadyChan / recvReadyChan (one-slot)
     sendQ,                   \* send queue (message types)
@@ -44,21 +48,41 @@ VARIABLES
     stopped,                         \* stopChan closed
     errPending                       \* which loop is inside SendError: "none" | "send" | "recv" | "read"
 
-evars == <<peerScript, appScript, ppos, apos, cstate, sTok, rTok, sendQ, slpc, scur, queued, count,
+pv == <<batch, outWire, pstate, pchunks>>
+evars == <<inbound, appScript, apos, pv, cstate, sTok, rTok, sendQ, slpc, scur, queued, count,
            rdpc, rdcur, recvQc, rlpc, rcurm, stpc, stTo, stWho, sreply, rreply, stopped, errPending>>
 vars == <<ovars, evars>>
 
 Scripts(n, alphabet) == UNION {[1..k -> alphabet] : k \in 0..n}
+\* the state in which the peer hands agency back after entering peer-agency state t (vproto: Busy -Resp-> Idle)
+PeerReturn(t) == LET back == {StateMapC.trans[i].t : i \in {j \in DOMAIN StateMapC.trans :
+                                  StateMapC.trans[j].f = t /\ StateMapC.agency[StateMapC.trans[j].t] # StateMapC.agency[t]}}
+                 IN IF back = {} THEN "dead" ELSE CHOOSE x \in back : TRUE
 Targets(f, m) == {StateMapC.trans[i].t : i \in {j \in DOMAIN StateMapC.trans :
                                                     StateMapC.trans[j].f = f /\ StateMapC.trans[j].m = m}}
 AgencyC(s) == StateMapC.agency[s]
 H(i) == ToString(i)
 
+\* a conforming application only queues messages of its own role that the protocol permits in order
+\* when every request is answered (client pipelining is conforming): for the reference run the
+\* peer's answers are Resp for every Req
+RECURSIVE AppRun(_, _, _)
+AppRun(a, i, s0) ==
+    IF i > Len(a) THEN TRUE
+    ELSE IF s0 = "dead" THEN FALSE
+    ELSE LET ts == Targets(s0, a[i]) IN
+         IF ts = {} \/ AgencyC(s0) # Me THEN FALSE
+         ELSE LET t == CHOOSE x \in ts : TRUE IN
+              \* when the peer gets agency it answers and hands agency back (reference: first permitted closing reply)
+              AppRun(a, i + 1, IF AgencyC(t) = Peer(Me) THEN PeerReturn(t) ELSE t)
+ConformingApp(a) == Me = "client" /\ AppRun(a, 1, StateMapC.init)
+
 Init ==
     /\ ObsInit(StateMapC, StateMapC, FALSE)
-    /\ peerScript \in Scripts(MaxPeer, MsgTypes \cup {BadType})
-    /\ appScript \in Scripts(MaxApp, MsgTypes)
-    /\ ppos = 1 /\ apos = 1
+    /\ inbound \in (IF PeerMode = "adversarial" THEN Scripts(MaxPeer, MsgTypes \cup {BadType}) ELSE {<<>>})
+    /\ appScript \in (IF PeerMode = "adversarial" THEN Scripts(MaxApp, MsgTypes)
+                      ELSE {a \in Scripts(MaxApp, MsgTypes) : ConformingApp(a)})
+    /\ apos = 1 /\ batch = <<>> /\ outWire = <<>> /\ pstate = StateMapC.init /\ pchunks = 0
     /\ cstate = "" /\ sTok = FALSE /\ rTok = FALSE /\ sendQ = <<>>
     /\ slpc = "waitTok" /\ scur = 0 /\ queued = <<>> /\ count = 0
     /\ rdpc = "idle" /\ rdcur = 0 /\ recvQc = <<>>
@@ -77,7 +101,7 @@ ST_Init ==
     /\ stpc = "init"
     /\ EvState(Me, StateMapC.init, 0)
     /\ cstate' = StateMapC.init /\ SetTokens(StateMapC.init) /\ stpc' = "idle"
-    /\ UNCHANGED <<peerScript, appScript, ppos, apos, sendQ, slpc, scur, queued, count, rdpc, rdcur, recvQc,
+    /\ UNCHANGED <<inbound, appScript, apos, pv, sendQ, slpc, scur, queued, count, rdpc, rdcur, recvQc,
                    rlpc, rcurm, stTo, stWho, sreply, rreply, stopped, errPending>>
 
 \* a transition request is taken from stateTransitionChan
@@ -95,12 +119,12 @@ ST_Request(who, m) ==
 ST_RequestSend ==
     /\ slpc \in {"firstTrans", "applyQueued"} /\ sreply = "none"
     /\ ST_Request("send", scur)
-    /\ UNCHANGED <<peerScript, appScript, ppos, apos, cstate, sTok, rTok, sendQ, slpc, scur, queued, count,
+    /\ UNCHANGED <<inbound, appScript, apos, pv, cstate, sTok, rTok, sendQ, slpc, scur, queued, count,
                    rdpc, rdcur, recvQc, rlpc, rcurm, stopped, errPending>>
 ST_RequestRecv ==
     /\ rlpc = "trans" /\ rreply = "none"
     /\ ST_Request("recv", rcurm)
-    /\ UNCHANGED <<peerScript, appScript, ppos, apos, cstate, sTok, rTok, sendQ, slpc, scur, queued, count,
+    /\ UNCHANGED <<inbound, appScript, apos, pv, cstate, sTok, rTok, sendQ, slpc, scur, queued, count,
                    rdpc, rdcur, recvQc, rlpc, rcurm, stopped, errPending>>
 ST_Set ==
     /\ stpc = "set"
@@ -108,12 +132,12 @@ ST_Set ==
     /\ cstate' = stTo /\ SetTokens(stTo) /\ stpc' = "idle" /\ stWho' = "none"
     /\ sreply' = IF stWho = "send" THEN "ok" ELSE sreply
     /\ rreply' = IF stWho = "recv" THEN "ok" ELSE rreply
-    /\ UNCHANGED <<peerScript, appScript, ppos, apos, sendQ, slpc, scur, queued, count, rdpc, rdcur, recvQc,
+    /\ UNCHANGED <<inbound, appScript, apos, pv, sendQ, slpc, scur, queued, count, rdpc, rdcur, recvQc,
                    rlpc, rcurm, stTo, stopped, errPending>>
 ST_Exit ==
     /\ stpc = "idle" /\ stopped
     /\ EvExit(Me, "state") /\ stpc' = "exit"
-    /\ UNCHANGED <<peerScript, appScript, ppos, apos, cstate, sTok, rTok, sendQ, slpc, scur, queued, count,
+    /\ UNCHANGED <<inbound, appScript, apos, pv, cstate, sTok, rTok, sendQ, slpc, scur, queued, count,
                    rdpc, rdcur, recvQc, rlpc, rcurm, stTo, stWho, sreply, rreply, stopped, errPending>>
 
 -----------------------------------------------------------------------------
@@ -123,7 +147,7 @@ Enqueue ==
     /\ EvEnq(Me, H(apos), appScript[apos], 1, 1)
     /\ sendQ' = Append(sendQ, [mt |-> appScript[apos], id |-> apos])
     /\ apos' = apos + 1
-    /\ UNCHANGED <<peerScript, appScript, ppos, cstate, sTok, rTok, slpc, scur, queued, count, rdpc, rdcur,
+    /\ UNCHANGED <<inbound, appScript, pv, cstate, sTok, rTok, slpc, scur, queued, count, rdpc, rdcur,
                    recvQc, rlpc, rcurm, stpc, stTo, stWho, sreply, rreply, stopped, errPending>>
 
 -----------------------------------------------------------------------------
@@ -134,14 +158,14 @@ SL_TakeTok ==
     /\ IF queued # <<>>
          THEN slpc' = "applyQueued" /\ scur' = Head(queued)
          ELSE slpc' = "collect" /\ UNCHANGED scur
-    /\ UNCHANGED <<ovars, peerScript, appScript, ppos, apos, cstate, rTok, sendQ, queued, count, rdpc, rdcur,
+    /\ UNCHANGED <<ovars, inbound, appScript, apos, pv, cstate, rTok, sendQ, queued, count, rdpc, rdcur,
                    recvQc, rlpc, rcurm, stpc, stTo, stWho, sreply, rreply, stopped, errPending>>
 
 \* reply to the transition request of a queued (pipelined) message
 SL_QueuedDone ==
     /\ slpc = "applyQueued" /\ sreply = "ok"
     /\ queued' = Tail(queued) /\ sreply' = "none" /\ slpc' = "waitTok"
-    /\ UNCHANGED <<ovars, peerScript, appScript, ppos, apos, cstate, sTok, rTok, sendQ, scur, count, rdpc, rdcur,
+    /\ UNCHANGED <<ovars, inbound, appScript, apos, pv, cstate, sTok, rTok, sendQ, scur, count, rdpc, rdcur,
                    recvQc, rlpc, rcurm, stpc, stTo, stWho, rreply, stopped, errPending>>
 
 SL_Dequeue ==
@@ -152,13 +176,14 @@ SL_Dequeue ==
          /\ IF count = 0 THEN slpc' = "firstTrans" /\ UNCHANGED queued
                          ELSE queued' = Append(queued, m.mt) /\ UNCHANGED slpc
     /\ sendQ' = Tail(sendQ) /\ count' = count + 1
-    /\ UNCHANGED <<peerScript, appScript, ppos, apos, cstate, sTok, rTok, rdpc, rdcur, recvQc, rlpc, rcurm,
+    /\ batch' = Append(batch, Head(sendQ).mt)
+    /\ UNCHANGED <<inbound, appScript, apos, outWire, pstate, pchunks, cstate, sTok, rTok, rdpc, rdcur, recvQc, rlpc, rcurm,
                    stpc, stTo, stWho, sreply, rreply, stopped, errPending>>
 
 SL_FirstDone ==
     /\ slpc = "firstTrans" /\ sreply = "ok"
     /\ sreply' = "none" /\ slpc' = "collect"
-    /\ UNCHANGED <<ovars, peerScript, appScript, ppos, apos, cstate, sTok, rTok, sendQ, scur, queued, count,
+    /\ UNCHANGED <<ovars, inbound, appScript, apos, pv, cstate, sTok, rTok, sendQ, scur, queued, count,
                    rdpc, rdcur, recvQc, rlpc, rcurm, stpc, stTo, stWho, rreply, stopped, errPending>>
 
 \* the batch is closed (queue empty, or the code's other break conditions) and written
@@ -166,14 +191,15 @@ SL_Flush ==
     /\ slpc = "collect" /\ count > 0
     /\ EvSegOut(Me, count, count)
     /\ count' = 0 /\ slpc' = "waitTok"
-    /\ UNCHANGED <<peerScript, appScript, ppos, apos, cstate, sTok, rTok, sendQ, scur, queued, rdpc, rdcur,
+    /\ outWire' = outWire \o batch /\ batch' = <<>>
+    /\ UNCHANGED <<inbound, appScript, apos, pstate, pchunks, cstate, sTok, rTok, sendQ, scur, queued, rdpc, rdcur,
                    recvQc, rlpc, rcurm, stpc, stTo, stWho, sreply, rreply, stopped, errPending>>
 
 \* a refused send transition: SendError, nothing is written
 SL_Refused ==
     /\ slpc \in {"firstTrans", "applyQueued"} /\ sreply = "err" /\ errPending = "none"
     /\ sreply' = "none" /\ errPending' = "send" /\ slpc' = "error"
-    /\ UNCHANGED <<ovars, peerScript, appScript, ppos, apos, cstate, sTok, rTok, sendQ, scur, queued, count,
+    /\ UNCHANGED <<ovars, inbound, appScript, apos, pv, cstate, sTok, rTok, sendQ, scur, queued, count,
                    rdpc, rdcur, recvQc, rlpc, rcurm, stpc, stTo, stWho, rreply, stopped>>
 
 SL_Exit ==
@@ -181,33 +207,33 @@ SL_Exit ==
        \/ slpc \in {"firstTrans", "applyQueued"} /\ stopped /\ sreply # "err"     \* transitionState saw stopChan
        \/ slpc = "error" /\ errPending # "send"
     /\ EvExit(Me, "send") /\ slpc' = "exit"
-    /\ UNCHANGED <<peerScript, appScript, ppos, apos, cstate, sTok, rTok, sendQ, scur, queued, count, rdpc,
+    /\ UNCHANGED <<inbound, appScript, apos, pv, cstate, sTok, rTok, sendQ, scur, queued, count, rdpc,
                    rdcur, recvQc, rlpc, rcurm, stpc, stTo, stWho, sreply, rreply, stopped, errPending>>
 
 -----------------------------------------------------------------------------
 (* readLoop: one segment = one message of length 1 *)
 RD_Segment ==
-    /\ rdpc = "idle" /\ ppos <= Len(peerScript) /\ ~stopped
+    /\ rdpc = "idle" /\ inbound # <<>> /\ ~stopped
     /\ EvSegIn(Me, 1, 1)
-    /\ rdcur' = peerScript[ppos] /\ ppos' = ppos + 1 /\ rdpc' = "decode"
-    /\ UNCHANGED <<peerScript, appScript, apos, cstate, sTok, rTok, sendQ, slpc, scur, queued, count, recvQc,
+    /\ rdcur' = Head(inbound) /\ inbound' = Tail(inbound) /\ rdpc' = "decode"
+    /\ UNCHANGED <<appScript, apos, pv, cstate, sTok, rTok, sendQ, slpc, scur, queued, count, recvQc,
                    rlpc, rcurm, stpc, stTo, stWho, sreply, rreply, stopped, errPending>>
 RD_Admit ==
     /\ rdpc = "decode" /\ rdcur # BadType /\ Len(recvQc) < 3
     /\ EvMsgIn(Me, rdcur, 1, "x", pend[Me] + 1, 0, cstate)
     /\ recvQc' = Append(recvQc, rdcur) /\ rdpc' = "idle"
-    /\ UNCHANGED <<peerScript, appScript, ppos, apos, cstate, sTok, rTok, sendQ, slpc, scur, queued, count, rdcur,
+    /\ UNCHANGED <<inbound, appScript, apos, pv, cstate, sTok, rTok, sendQ, slpc, scur, queued, count, rdcur,
                    rlpc, rcurm, stpc, stTo, stWho, sreply, rreply, stopped, errPending>>
 RD_DecodeError ==
     /\ rdpc = "decode" /\ rdcur = BadType /\ errPending = "none"
     /\ errPending' = "read" /\ rdpc' = "error"
-    /\ UNCHANGED <<ovars, peerScript, appScript, ppos, apos, cstate, sTok, rTok, sendQ, slpc, scur, queued, count,
+    /\ UNCHANGED <<ovars, inbound, appScript, apos, pv, cstate, sTok, rTok, sendQ, slpc, scur, queued, count,
                    rdcur, recvQc, rlpc, rcurm, stpc, stTo, stWho, sreply, rreply, stopped>>
 RD_Exit ==
     /\ \/ rdpc \in {"idle", "decode"} /\ (stopped \/ slpc = "exit")
        \/ rdpc = "error" /\ errPending # "read"
     /\ EvExit(Me, "read") /\ rdpc' = "exit"
-    /\ UNCHANGED <<peerScript, appScript, ppos, apos, cstate, sTok, rTok, sendQ, slpc, scur, queued, count, rdcur,
+    /\ UNCHANGED <<inbound, appScript, apos, pv, cstate, sTok, rTok, sendQ, slpc, scur, queued, count, rdcur,
                    recvQc, rlpc, rcurm, stpc, stTo, stWho, sreply, rreply, stopped, errPending>>
 
 -----------------------------------------------------------------------------
@@ -215,25 +241,25 @@ RD_Exit ==
 RL_TakeTok ==
     /\ rlpc = "waitTok" /\ (rTok \/ Variant = "noRecvToken")
     /\ rTok' = FALSE /\ rlpc' = "waitMsg"
-    /\ UNCHANGED <<ovars, peerScript, appScript, ppos, apos, cstate, sTok, sendQ, slpc, scur, queued, count, rdpc,
+    /\ UNCHANGED <<ovars, inbound, appScript, apos, pv, cstate, sTok, sendQ, slpc, scur, queued, count, rdpc,
                    rdcur, recvQc, rcurm, stpc, stTo, stWho, sreply, rreply, stopped, errPending>>
 RL_TakeMsg ==
     /\ rlpc = "waitMsg" /\ recvQc # <<>>
     /\ EvRecvDeq(Me, Head(recvQc))
     /\ rcurm' = Head(recvQc) /\ recvQc' = Tail(recvQc) /\ rlpc' = "trans"
-    /\ UNCHANGED <<peerScript, appScript, ppos, apos, cstate, sTok, rTok, sendQ, slpc, scur, queued, count, rdpc,
+    /\ UNCHANGED <<inbound, appScript, apos, pv, cstate, sTok, rTok, sendQ, slpc, scur, queued, count, rdpc,
                    rdcur, stpc, stTo, stWho, sreply, rreply, stopped, errPending>>
 RL_Handle ==
     /\ rlpc = "trans" /\ rreply = "ok"
     /\ EvHandle(Me, rcurm)
     /\ rreply' = "none" /\ rlpc' = "handling"
-    /\ UNCHANGED <<peerScript, appScript, ppos, apos, cstate, sTok, rTok, sendQ, slpc, scur, queued, count, rdpc,
+    /\ UNCHANGED <<inbound, appScript, apos, pv, cstate, sTok, rTok, sendQ, slpc, scur, queued, count, rdpc,
                    rdcur, recvQc, rcurm, stpc, stTo, stWho, sreply, stopped, errPending>>
 RL_Release ==
     /\ rlpc = "handling"
     /\ EvRelease(Me, rcurm, 1, pend[Me] - 1)
     /\ rlpc' = "waitTok"
-    /\ UNCHANGED <<peerScript, appScript, ppos, apos, cstate, sTok, rTok, sendQ, slpc, scur, queued, count, rdpc,
+    /\ UNCHANGED <<inbound, appScript, apos, pv, cstate, sTok, rTok, sendQ, slpc, scur, queued, count, rdpc,
                    rdcur, recvQc, rcurm, stpc, stTo, stWho, sreply, rreply, stopped, errPending>>
 \* handleMessage failed: refused transition (then SendError) or shutdown seen by transitionState
 RL_Failed ==
@@ -242,14 +268,14 @@ RL_Failed ==
        \/ rreply # "err" /\ stopped /\ rlpc' = "leaving" /\ UNCHANGED errPending
     /\ EvRecvErr(Me, rcurm)
     /\ rreply' = "none"
-    /\ UNCHANGED <<peerScript, appScript, ppos, apos, cstate, sTok, rTok, sendQ, slpc, scur, queued, count, rdpc,
+    /\ UNCHANGED <<inbound, appScript, apos, pv, cstate, sTok, rTok, sendQ, slpc, scur, queued, count, rdpc,
                    rdcur, recvQc, rcurm, stpc, stTo, stWho, sreply, stopped>>
 RL_Exit ==
     /\ \/ rlpc \in {"waitTok", "waitMsg"} /\ (stopped \/ slpc = "exit")
        \/ rlpc = "leaving"
        \/ rlpc = "error" /\ errPending # "recv"
     /\ EvExit(Me, "recv") /\ rlpc' = "exit"
-    /\ UNCHANGED <<peerScript, appScript, ppos, apos, cstate, sTok, rTok, sendQ, slpc, scur, queued, count, rdpc,
+    /\ UNCHANGED <<inbound, appScript, apos, pv, cstate, sTok, rTok, sendQ, slpc, scur, queued, count, rdpc,
                    rdcur, recvQc, rcurm, stpc, stTo, stWho, sreply, rreply, stopped, errPending>>
 
 -----------------------------------------------------------------------------
@@ -260,16 +286,37 @@ SE_Report ==
     /\ IF stopped
          THEN errPending' = "none" /\ UNCHANGED ovars
          ELSE EvError(Me) /\ errPending' = "stop-" \o errPending
-    /\ UNCHANGED <<peerScript, appScript, ppos, apos, cstate, sTok, rTok, sendQ, slpc, scur, queued, count, rdpc,
+    /\ UNCHANGED <<inbound, appScript, apos, pv, cstate, sTok, rTok, sendQ, slpc, scur, queued, count, rdpc,
                    rdcur, recvQc, rlpc, rcurm, stpc, stTo, stWho, sreply, rreply, stopped>>
 SE_Stop ==
     /\ errPending \in {"stop-send", "stop-recv", "stop-read"}
     /\ IF stopped THEN UNCHANGED ovars ELSE EvStop(Me)
     /\ stopped' = TRUE /\ errPending' = "none"
-    /\ UNCHANGED <<peerScript, appScript, ppos, apos, cstate, sTok, rTok, sendQ, slpc, scur, queued, count, rdpc,
+    /\ UNCHANGED <<inbound, appScript, apos, pv, cstate, sTok, rTok, sendQ, slpc, scur, queued, count, rdpc,
                    rdcur, recvQc, rlpc, rcurm, stpc, stTo, stWho, sreply, rreply>>
 
+-----------------------------------------------------------------------------
+(* the conforming peer: the protocol's reference automaton on the other side of the wire *)
+PeerRead ==
+    /\ PeerMode = "conforming" /\ outWire # <<>> /\ AgencyC(pstate) = Me
+    /\ Targets(pstate, Head(outWire)) # {}
+    /\ pstate' = CHOOSE t \in Targets(pstate, Head(outWire)) : TRUE
+    /\ outWire' = Tail(outWire) /\ pchunks' = 0
+    /\ UNCHANGED <<ovars, inbound, appScript, apos, batch, cstate, sTok, rTok, sendQ, slpc, scur, queued, count,
+                   rdpc, rdcur, recvQc, rlpc, rcurm, stpc, stTo, stWho, sreply, rreply, stopped, errPending>>
+PeerAnswer ==
+    /\ PeerMode = "conforming" /\ AgencyC(pstate) = Peer(Me) /\ Len(inbound) < 2
+    /\ \E i \in DOMAIN StateMapC.trans :
+         /\ StateMapC.trans[i].f = pstate
+         /\ (StateMapC.trans[i].t = pstate) => pchunks < 1          \* at most one streamed message per request
+         /\ inbound' = Append(inbound, StateMapC.trans[i].m)
+         /\ pstate' = StateMapC.trans[i].t
+         /\ pchunks' = IF StateMapC.trans[i].t = pstate THEN pchunks + 1 ELSE 0
+    /\ UNCHANGED <<ovars, appScript, apos, batch, outWire, cstate, sTok, rTok, sendQ, slpc, scur, queued, count,
+                   rdpc, rdcur, recvQc, rlpc, rcurm, stpc, stTo, stWho, sreply, rreply, stopped, errPending>>
+
 Next ==
+    \/ PeerRead \/ PeerAnswer
     \/ ST_Init \/ ST_RequestSend \/ ST_RequestRecv \/ ST_Set \/ ST_Exit
     \/ Enqueue
     \/ SL_TakeTok \/ SL_QueuedDone \/ SL_Dequeue \/ SL_FirstDone \/ SL_Flush \/ SL_Refused \/ SL_Exit
@@ -287,5 +334,17 @@ TokensSane == ~(sTok /\ rTok)
 \* a handler runs only for a message whose receive transition was accepted while the peer had agency
 HandlingImpliesAccepted == rlpc = "handling" => cur[Me].phase = "handling"
 \* after an error the protocol stops and every loop exits
+\* C12, conforming use: a conforming (possibly pipelined) application against a conforming peer never
+\* produces an error on either side, and the peer never sees a message it does not permit
+ConformingNeverFails ==
+    PeerMode = "conforming" =>
+        /\ errCount[Me] = 0 /\ ~stopped
+        /\ (outWire # <<>> /\ AgencyC(pstate) = Me) => Targets(pstate, Head(outWire)) # {}
+\* ... and the whole conversation gets through: everything queued is eventually read by the peer and
+\* every answer is handled
+ConversationCompletes ==
+    PeerMode = "conforming" =>
+        <>[](apos > Len(appScript) /\ sendQ = <<>> /\ outWire = <<>> /\ batch = <<>> /\ queued = <<>>
+             /\ inbound = <<>> /\ recvQc = <<>> /\ rlpc \in {"waitTok", "waitMsg"})
 ErrorLeadsToShutdown == (errCount[Me] > 0) ~> (exits[Me] = {"send", "read", "recv", "state"})
 =============================================================================
